@@ -738,6 +738,9 @@ def flatten(self, *dims, **kwargs):
     if insert is None: 
         insert = ii  # by default, do not reshape
 
+    # the flattened axis cannot be inserted further than after the remaining dimensions
+    insert = min(insert, self.ndim - n)
+
     # If dimensions do not follow each other, transpose first
     if dims != self.dims[insert:insert+len(dims)]:
 
